@@ -334,7 +334,7 @@ def _read_deprecated_section(
 
     item = items[0]
     version = item[0]
-    text = dedent("\n".join(item[1:]))
+    text = dedent("\n".join(item[1:])).rstrip("\n")
     return DocstringSectionDeprecated(version=version, text=text), new_offset
 
 
@@ -362,7 +362,7 @@ def _read_returns_section(
         groups = match.groupdict()
         name = groups["nt_name"] or groups["name"]
         annotation = groups["nt_type"] or groups["type"]
-        text = dedent("\n".join(item[1:]))
+        text = dedent("\n".join(item[1:])).rstrip("\n")
         if annotation is None:
             # try to retrieve the annotation from the docstring parent
             with suppress(AttributeError, IndexError, KeyError, ValueError):
@@ -419,7 +419,7 @@ def _read_yields_section(
         groups = match.groupdict()
         name = groups["nt_name"] or groups["name"]
         annotation = groups["nt_type"] or groups["type"]
-        text = dedent("\n".join(item[1:]))
+        text = dedent("\n".join(item[1:])).rstrip("\n")
         if annotation is None:
             # try to retrieve the annotation from the docstring parent
             with suppress(AttributeError, IndexError, KeyError, ValueError):
@@ -467,7 +467,7 @@ def _read_receives_section(
         groups = match.groupdict()
         name = groups["nt_name"] or groups["name"]
         annotation = groups["nt_type"] or groups["type"]
-        text = dedent("\n".join(item[1:]))
+        text = dedent("\n".join(item[1:])).rstrip("\n")
         if annotation is None:
             # try to retrieve the annotation from the docstring parent
             with suppress(AttributeError, IndexError, KeyError):
@@ -504,7 +504,7 @@ def _read_raises_section(
     raises = []
     for item in items:
         annotation = parse_docstring_annotation(item[0], docstring)
-        text = dedent("\n".join(item[1:]))
+        text = dedent("\n".join(item[1:])).rstrip("\n")
         raises.append(DocstringRaise(annotation=annotation, description=text))
     return DocstringSectionRaises(raises), new_offset
 
@@ -527,7 +527,7 @@ def _read_warns_section(
     warns = []
     for item in items:
         annotation = parse_docstring_annotation(item[0], docstring)
-        text = dedent("\n".join(item[1:]))
+        text = dedent("\n".join(item[1:])).rstrip("\n")
         warns.append(DocstringWarn(annotation=annotation, description=text))
     return DocstringSectionWarns(warns), new_offset
 
@@ -564,7 +564,7 @@ def _read_attributes_section(
                 annotation = docstring.parent[name].annotation  # type: ignore[index]
         else:
             annotation = parse_docstring_annotation(annotation, docstring, log_level=LogLevel.debug)
-        text = dedent("\n".join(item[1:]))
+        text = dedent("\n".join(item[1:])).rstrip("\n")
         attributes.append(DocstringAttribute(name=name, annotation=annotation, description=text))
     return DocstringSectionAttributes(attributes), new_offset
 
